@@ -64,7 +64,7 @@ class SelectConditionKwargs(FnSpec):
             c, v, c.ref("resolved_kwargs"), attr(c.pre, c.ref("contract"), "condition_arg_set"))
 
     def ensures_raise(self, c, e):
-        return [("missing", self.miss(c)), ("TypeError", builtin_exc(e.t, "TypeError", c.pre.ctr))]
+        return [("missing", self.miss(c)), ("TypeError", builtin_exc(e.t, "TypeError", c.pre.ctr)), ("cause_none", cause_of(c.post, e.t) == NONE)]
 
 
 class SelectCaptureKwargs(FnSpec):
@@ -82,7 +82,7 @@ class SelectCaptureKwargs(FnSpec):
             c, v, c.ref("resolved_kwargs"), attr(c.pre, c.ref("a_snapshot"), "arg_set"))
 
     def ensures_raise(self, c, e):
-        return [("missing", self.miss(c)), ("TypeError", builtin_exc(e.t, "TypeError", c.pre.ctr))]
+        return [("missing", self.miss(c)), ("TypeError", builtin_exc(e.t, "TypeError", c.pre.ctr)), ("cause_none", cause_of(c.post, e.t) == NONE)]
 
 
 class SelectErrorKwargs(FnSpec):
@@ -104,7 +104,7 @@ class SelectErrorKwargs(FnSpec):
             c, v, c.ref("resolved_kwargs"), attr(c.pre, c.ref("contract"), "error_arg_set"))
 
     def ensures_raise(self, c, e):
-        return [("missing", self.miss(c)), ("TypeError", builtin_exc(e.t, "TypeError", c.pre.ctr))]
+        return [("missing", self.miss(c)), ("TypeError", builtin_exc(e.t, "TypeError", c.pre.ctr)), ("cause_none", cause_of(c.post, e.t) == NONE)]
 
 
 PURE_SPECS = [AssertNoInvalidKwargs(), AssertResolvedKwargsValid(), SelectConditionKwargs(), SelectCaptureKwargs(), SelectErrorKwargs()]
